@@ -14,12 +14,13 @@
     * C03_table_columns     a table part: name, display name, area, column names = `decodeTable`
 -/
 import Umya.Lemmas.ReaderNames
+import Umya.Lemmas.ReaderNamesAny
 import Umya.Lemmas.ReaderPath
 import Umya.Lemmas.ReaderWhole
 import Umya.Thm.C03Book
 namespace Umya.Thm.C03
 open Umya.Reader Umya.Reader.Lemmas Umya.Spec.Xml Umya.Spec.Sml Umya.Coord
-open Umya.Annot (DefName Address AreaOK splitStr isAddress)
+open Umya.Annot (DefName Address AreaOK splitStr isAddress canonText canonArea nameTextAnyB canonNameTextB canonAreaB)
 
 /-! ## merged ranges -/
 section Merges
@@ -66,6 +67,27 @@ example : (resOpt (Range.parse "a1:b2".toList)).map Range.print = some [] ∧
     resOpt (Range.parse "A1:B2:C3".toList) = none := by
   refine ⟨by decide +kernel, by decide +kernel, by decide +kernel⟩
 
+/-- **`MergeRefOk` is an explicit grammar.**  A `ref` text satisfies `MergeRefOk` exactly when it is in the decidable
+    grammar `canonRangeB` (`Umya/Model/CoordCanon.lean`): `cell`, `cell:cell`, `col:col` or `row:row`, every part
+    `\$?[A-Z]{1,3}` / `\$?(0|[1-9][0-9]*)` with the row below 2^32.  From `C17_range_bijection`. -/
+theorem C03_merge_ref_grammar (v : Text) : MergeRefOk v ↔ canonRangeB v = true := mergeRefOk_iff v
+
+/-- **Merged ranges, by the grammar of the `ref` text.**  `C03_merges` for EVERY list of `<mergeCell>` elements whose `ref` is
+    a canonical A1 text (`canonRangeB`, evaluated per file by the driver: `merges-canon`): the reader does not panic and
+    `get_range()` shows exactly the file's texts.  From `C17_range_parse_print`. -/
+theorem C03_merges_canonical (ms : List Node) (h : ∀ m ∈ ms, ∃ v, m.attr? "ref".toList = some v ∧ canonRangeB v = true) :
+    ∃ rs, readMergeRanges ms = some rs ∧ shownMerges rs = ms.filterMap (·.attr? "ref".toList) :=
+  C03_merges ms (fun m hm => by
+    obtain ⟨v, hv, hc⟩ := h m hm
+    exact ⟨v, hv, (mergeRefOk_iff v).2 hc⟩)
+
+/-- non-vacuity; and what stays outside the grammar (the witnesses of the example above): lower case, a leading zero -/
+example : (["A5:B6", "C5:XFD7", "$B$2:C$3", "A:C", "2:$3", "D4"].map fun r => canonRangeB r.toList) =
+      [true, true, true, true, true, true] ∧
+    (["a1:b2", "A01", "A1:B2:C3", "A1:", "", "AAAA1", "A4294967296"].map fun r => canonRangeB r.toList) =
+      [false, false, false, false, false, false, false] := by
+  decide +kernel
+
 end Merges
 
 /-! ## defined names -/
@@ -104,6 +126,62 @@ theorem C03_defined_names (ds : List Node) (h : ds.all validDefinedName = true) 
       rfl
     · simp only [List.map_cons, hv, List.cons.injEq, and_true]
       simp only [nameViewB, h1, h2, h3]
+
+/-- the decoder's name with its text as the library SHOWS it: every sheet qualifier of an area list re-quoted by the
+    library's rule (`canonText`), name and scope untouched -/
+def canonNameV (n : NameV) : NameV := NameV.mk n.name n.scope (canonText n.text)
+
+/-- **Defined names in any spelling.**  `C03_defined_names` with the hypothesis on the text widened to `nameTextAnyB`
+    (decidable; evaluated per file by the driver: `names-any-ok`): anything that is NOT a plain list of cell areas (kept
+    as it stands), or a list `area,area,…` where every area is `qualifier!cell` or `qualifier!cell:cell` in ANY canonical
+    spelling — the qualifier unquoted (a legal sheet name without `' ( ) " ,`: `Sheet1!$A$1`, as Excel writes it) or in
+    apostrophes with every apostrophe doubled (`'It''s'!$A$1`), the cells with or without `$`, rows without leading
+    zeros.  The reader model does not panic and `get_name()`, `get_local_sheet_id()`, `get_address()` show the decoder's
+    name and scope, and the decoder's text RE-QUOTED: `canonText` — the same cells, every qualifier in apostrophes unless
+    the name is `[0-9a-zA-Z]+` starting with a lower-case letter (or a digit run ≥ 2^32): `C17_quote_rule`.
+    So for the file text `Sheet1!$A$1` the library shows `'Sheet1'!$A$1` (probed on the implementation: it does).
+    That `canonText` keeps the MEANING is `C03_canon_text_meaning`. -/
+theorem C03_defined_names_any_spelling (ds : List Node) (h : ds.all validDefinedName = true)
+    (ht : ∀ d ∈ ds, nameTextAnyB d.ownText = true) :
+    ∃ l, readDefinedNamesB ds = some l ∧ l.map nameViewB = ds.map (fun d => canonNameV (specName d)) := by
+  induction ds with
+  | nil => exact ⟨[], rfl, rfl⟩
+  | cons d rest ih =>
+    simp only [List.all_cons, Bool.and_eq_true] at h
+    obtain ⟨n, hn, h1, h2, h3⟩ := definedNameB_agrees_any d h.1 (ht d List.mem_cons_self)
+    obtain ⟨l, hl, hv⟩ := ih h.2 (fun x hx => ht x (List.mem_cons_of_mem _ hx))
+    refine ⟨n :: l, ?_, ?_⟩
+    · unfold readDefinedNamesB at hl ⊢
+      simp only [List.mapM_cons, hn, hl]
+      rfl
+    · simp only [List.map_cons, hv, List.cons.injEq, and_true]
+      simp only [nameViewB, canonNameV, h1, h2, h3]
+
+/-- **`canonText` keeps the meaning, and is a canonical form.**  For every name text of the wider grammar: reading the
+    re-quoted text gives the SAME `DefinedName` (same areas: sheets, corners, locks, order — or the same kept text) as
+    reading the file's text; re-quoting twice is re-quoting once; and on the texts of `C03_defined_names` (`NameTextOk`: the
+    library's own spelling) it is the identity, so `C03_defined_names` is the special case. -/
+theorem C03_canon_text_meaning (v : Text) (h : nameTextAnyB v = true) :
+    DefName.setAddress {} (canonText v) = DefName.setAddress {} v ∧ canonText (canonText v) = canonText v := by
+  obtain ⟨b, h1, _, h3, h4⟩ := setAddress_any v h
+  exact ⟨by rw [h1, h3], h4⟩
+
+theorem C03_canon_text_library_spelling (v : Text) (h : NameTextOk v) : nameTextAnyB v = true ∧ canonText v = v :=
+  nameTextOk_any v h
+
+/-- non-vacuity (Excel's spelling, the library's, quotes that are not needed, an apostrophe, a list in mixed spelling, a
+    formula, whole columns) and what is still outside: a row with a leading zero (`set_address` reads it, `get_address`
+    prints it without the zero), an unqualified area -/
+example :
+    (["Sheet1!$A$1", "'Sheet1'!$A$1", "'data'!A1:B2", "'It''s'!$A$1", "Sheet1!$A$1:$B$2,'S 2'!C3,data!D4", "SUM(Sheet1!A1:A2)",
+      "Sheet1!$A:$B", ""].map fun t => (nameTextAnyB t.toList, String.ofList (canonText t.toList))) =
+      [(true, "'Sheet1'!$A$1"), (true, "'Sheet1'!$A$1"), (true, "data!A1:B2"), (true, "'It''s'!$A$1"),
+       (true, "'Sheet1'!$A$1:$B$2,'S 2'!C3,data!D4"), (true, "SUM(Sheet1!A1:A2)"), (true, "Sheet1!$A:$B"), (true, "")] ∧
+    nameTextAnyB "Sheet1!$A$01".toList = false ∧ nameTextAnyB "$A$1".toList = false ∧
+    ((readDefinedNamesB [Node.elem "definedName".toList [⟨"name".toList, "X".toList⟩]
+        [.text "Sheet1!$A$1:$B$2,data!D4".toList]]).map fun l => l.map fun n => String.ofList n.body.text) =
+      some ["'Sheet1'!$A$1:$B$2,data!D4"] := by
+  decide +kernel
 
 /-- … and for a name that IS an area list the areas the library holds (what `get_address_obj()` shows, what the re-homing
     looks at) are the areas written: same sheets, corners, locks, order -/
